@@ -23,6 +23,11 @@ type Case struct {
 	WantErr bool              `json:"want_err"` // an execution error is expected instead of output
 	Key     string            `json:"key"`      // violation key class
 	Label   string            `json:"label"`    // what the generator built (for reports)
+	// Ctx2 (optional): the same COMPILED template is executed a second time with this context and must render
+	// Want2 / fail (what the first execution bound must not leak into the second), then once more with Ctx
+	Ctx2     map[string]ref.V `json:"ctx2,omitempty"`
+	Want2    eng.Q            `json:"want2,omitempty"`
+	WantErr2 bool             `json:"want_err2,omitempty"`
 	// CtxKeyError: the context contains a key the engine must reject (error expected, nothing else judged)
 }
 
@@ -109,7 +114,65 @@ func (c *Case) Exec(t *eng.T) {
 	}
 	if out.S != string(c.Want) {
 		t.Fail(c.Key+":output", "%s [%s] renders %q; the reference interpreter renders %q", c.Label, c.ID(), out.S, string(c.Want))
+		return
 	}
+	if c.Ctx2 != nil {
+		o2 := px.Exec(tpl, goCtx(c.Ctx2))
+		switch {
+		case o2.Panic != "":
+			t.Fail(c.Key+":panic:"+o2.Panic, "%s [%s] panics in a second execution with another context: %s", c.Label, c.ID(), o2.PanicMsg)
+		case c.WantErr2 && o2.Err == "":
+			t.Fail(c.Key+":second-execution:no-error", "%s [%s]: second execution (context %v) renders %q, the reference expects an execution error", c.Label, c.ID(), c.Ctx2, o2.S)
+		case !c.WantErr2 && (o2.Err != "" || o2.S != string(c.Want2)):
+			t.Fail(c.Key+":second-execution", "%s [%s]: the second execution of the compiled template, with the context %v, gives %s; the reference interpreter renders %q", c.Label, c.ID(), c.Ctx2, o2, string(c.Want2))
+		}
+		if o3 := px.Exec(tpl, goCtx(c.Ctx)); o3.String() != out.String() {
+			t.Fail(c.Key+":third-execution", "%s [%s]: executing again with the first context gives %s, the first execution gave %s", c.Label, c.ID(), o3, out)
+		}
+	}
+}
+
+// Vary returns a context with the same keys and kinds but different values (strings get a suffix, numbers move,
+// lists are rotated by one).
+func Vary(ctx map[string]ref.V) map[string]ref.V {
+	out := map[string]ref.V{}
+	for k, v := range ctx {
+		out[k] = vary(v)
+	}
+	return out
+}
+
+func vary(v ref.V) ref.V {
+	switch v.K {
+	case ref.KStr:
+		return ref.StrV(v.S + "'2")
+	case ref.KInt:
+		return ref.IntV(v.I + 3)
+	case ref.KFloat:
+		return ref.FloatV(v.F + 1.5)
+	case ref.KList:
+		// same element kinds (an order on mixed kinds is not specified): rotate by one and vary every element
+		var l []ref.V
+		for i := range v.L {
+			l = append(l, vary(v.L[(i+1)%len(v.L)]))
+		}
+		return ref.ListV(l...)
+	}
+	return v
+}
+
+// BuildTwice is Build plus the expectation for a second execution with another context.
+func BuildTwice(files map[string][]ref.Node, ctx, ctx2, globals map[string]ref.V, key, label string, alt bool) (*Case, bool) {
+	c, ok := Build(files, ctx, globals, key, label, alt)
+	if !ok {
+		return nil, false
+	}
+	c2, ok2 := Build(files, ctx2, globals, key, label, alt)
+	if !ok2 {
+		return c, true // the second context leads outside the fragment: single execution only
+	}
+	c.Ctx2, c.Want2, c.WantErr2 = ctx2, c2.Want, c2.WantErr
+	return c, true
 }
 
 // Build runs the reference interpreter and returns the case, or ok=false when
